@@ -604,4 +604,247 @@ theorem tie_cond_serve_model (r : Router) (m p : String) (h : (r.trees.lookup m)
   rw [(tie_cond_serve [] (methodsAllowed r m p) none none "" "").2.2.1]
   cases methodsAllowed r m p <;> simp
 
+
+/-! ### round 5: the remaining entry points, whole if-return bodies, forwarded argument lists -/
+
+/-- `MustNewServer` — model `mustNewServer = newServer`: the options are forwarded. -/
+theorem tie_mustNewServerStmts : mustNewServerStmts = [
+  "server, err := NewServer(c, opts...)",
+  "if err != nil {",
+  "logx.Must(err)",
+  "}",
+  "return server"] := by rfl
+
+/-- `Server.Start` / `StartWithOpts` — model `Server.start`: `handleError` of `engine.start` on the server's router. -/
+theorem tie_serverStartStmts : serverStartStmts = ["handleError(s.ngin.start(s.router))"] ∧
+    serverStartWithOptsStmts = ["handleError(s.ngin.start(s.router, opts...))"] := ⟨rfl, rfl⟩
+
+/-- `handleError` — model `StartResult.panics`: nil and `http.ErrServerClosed` return, everything else panics. -/
+theorem tie_handleErrorStmts : handleErrorStmts = [
+  "if err == nil || errors.Is(err, http.ErrServerClosed) {",
+  "return",
+  "}",
+  "logx.Error(err)",
+  "panic(err)"] := by rfl
+
+/-- `engine.start` — model `Server.start`: `bindRoutes` FIRST, its error returned before anything listens. -/
+theorem tie_engineStartStmts : engineStartStmts.take 3 = [
+  "if err := ng.bindRoutes(router); err != nil {",
+  "return err",
+  "}"] ∧ engineStartCalls.head? = some ("ng.bindRoutes", ["router"]) := ⟨rfl, rfl⟩
+
+/-- `Server.Use` / `engine.use` — the driver's `St.uses`: appended, in call order. -/
+theorem tie_useStmts : serverUseStmts = ["s.ngin.use(middleware)"] ∧
+    engineUseStmts = ["ng.middlewares = append(ng.middlewares, middleware)"] := ⟨rfl, rfl⟩
+
+/-- `WithRouter` — model `RunOpt.router`: the server's router is REPLACED. -/
+theorem tie_withRouterStmts : withRouterStmts = [
+  "return func(server *Server){...}",
+  "func{",
+  "server.router = router",
+  "}"] := by rfl
+
+/-- all argument lists with which `f` is called. -/
+def argsOf (cs : List (String × List String)) (f : String) : List (List String) := (cs.filter (·.1 == f)).map (·.2)
+
+/-- **forwarded arguments of the delegating entry points** (a dropped, reordered or replaced argument breaks these):
+`AddRoute` → `AddRoutes([]Route{r}, opts...)`; `MustNewServer` → `NewServer(c, opts...)`; `Start` → `start(s.router)`;
+`Use` → `use(middleware)` → `append(ng.middlewares, middleware)`. -/
+theorem tie_calls_server :
+    serverAddRouteCalls = [("s.AddRoutes", ["[]Route{r}", "opts..."])] ∧
+    mustNewServerCalls.head? = some ("NewServer", ["c", "opts..."]) ∧
+    serverStartCalls = [("handleError", ["s.ngin.start(s.router)"]), ("s.ngin.start", ["s.router"])] ∧
+    serverStartWithOptsCalls = [("handleError", ["s.ngin.start(s.router, opts...)"]), ("s.ngin.start", ["s.router", "opts..."])] ∧
+    serverUseCalls = [("s.ngin.use", ["middleware"])] ∧
+    engineUseCalls = [("append", ["ng.middlewares", "middleware"])] := ⟨rfl, rfl, rfl, rfl, rfl, rfl⟩
+
+/-- `bindRoutes` → `bindFeaturedRoutes(router, fr, metrics)` → `bindRoute(fr, router, metrics, route, verifier)` →
+`router.Handle(route.Method, route.Path, handle)` with `handle = chn.ThenFunc(route.Handler)` — model `bindGroups` /
+`bindAll` / `handle r m p item` per registration (method, path and handler of the SAME route). -/
+theorem tie_calls_engine :
+    engineBindRoutesCalls = [("ng.createMetrics", []), ("ng.bindFeaturedRoutes", ["router", "fr", "metrics"])] ∧
+    engineBindFeaturedCalls = [("ng.signatureVerifier", ["fr.signature"]),
+      ("ng.bindRoute", ["fr", "router", "metrics", "route", "verifier"])] ∧
+    argsOf engineBindRouteCalls "router.Handle" = [["route.Method", "route.Path", "handle"]] ∧
+    argsOf engineBindRouteCalls "chn.ThenFunc" = [["route.Handler"]] ∧
+    argsOf engineBindRouteCalls "ng.appendAuthHandler" = [["fr", "chn", "verifier"]] ∧
+    engineBindRouteCalls.getLast? = some ("router.Handle", ["route.Method", "route.Path", "handle"]) :=
+  ⟨rfl, rfl, rfl, rfl, rfl, rfl⟩
+
+/-- `Tree.Add` → `add(t.root, route[1:], item)`, `Tree.Search` → `next(t.root, route[1:], &result)` (model: `toksOf`
+drops the first byte); `Handle` → `path.Clean(reqPath)`, `tree.Add(cleanPath, handler)` on both branches;
+`ServeHTTP` → `path.Clean(r.URL.Path)`, `tree.Search(reqPath)`, `pathvar.WithVars(r, result.Params)`,
+`methodsAllowed(r.Method, reqPath)` (the CLEANED path everywhere: seeded change C09-3); `methodsAllowed` →
+`tree.Search(path)`. -/
+theorem tie_calls_router :
+    argsOf treeAddCalls "add" = [["t.root", "route[1:]", "item"]] ∧
+    argsOf treeSearchCalls "t.next" = [["t.root", "route[1:]", "&result"]] ∧
+    argsOf handleCalls "path.Clean" = [["reqPath"]] ∧
+    argsOf handleCalls "tree.Add" = [["cleanPath", "handler"], ["cleanPath", "handler"]] ∧
+    argsOf serveCalls "path.Clean" = [["r.URL.Path"]] ∧
+    argsOf serveCalls "tree.Search" = [["reqPath"]] ∧
+    argsOf serveCalls "pathvar.WithVars" = [["r", "result.Params"]] ∧
+    argsOf serveCalls "pr.methodsAllowed" = [["r.Method", "reqPath"]] ∧
+    argsOf methodsAllowedCalls "tree.Search" = [["path"]] := ⟨rfl, rfl, rfl, rfl, rfl, rfl, rfl, rfl, rfl⟩
+
+/-- `pathvar`: `WithVars` stores under the key `Vars` reads (model `pathVarsKey` on both sides). -/
+theorem tie_calls_pathvar :
+    argsOf pathvarVarsCalls "r.Context().Value" = [["pathVars"]] ∧
+    argsOf pathvarWithVarsCalls "context.WithValue" = [["r.Context()", "pathVars", "params"]] ∧
+    argsOf pathvarWithVarsCalls "r.WithContext" = [["context.WithValue(r.Context(), pathVars, params)"]] := ⟨rfl, rfl, rfl⟩
+
+/-- **`Tree.Add`, whole prelude**: which exit is taken, for all arguments, and what each exit returns. -/
+theorem tie_body_treeAdd (route : String) (item : Bool) :
+    treeAddBody route item = (if !rooted route then 0 else if !item then 1 else 2) ∧
+    treeAddBodyReturns = ["errNotFromRoot", "errEmptyItem", "<continues>"] := by
+  refine ⟨?_, rfl⟩
+  have h := (tie_cond_notFromRoot route).1
+  unfold condAddNotFromRoot at h
+  unfold treeAddBody
+  rw [h]
+
+/-- … and the model's `treeAdd` takes the same exits with the same errors. -/
+theorem tie_body_treeAdd_model (root : Node) (route : String) (item : Option H) :
+    (treeAddBody route item.isSome = 0 → treeAdd root route item = .error .notFromRoot) ∧
+    (treeAddBody route item.isSome = 1 → treeAdd root route item = .error .emptyItem) ∧
+    (treeAddBody route item.isSome = 2 → ∃ h, item = some h ∧ treeAdd root route item = add (toksOf route) root h) := by
+  rw [(tie_body_treeAdd route item.isSome).1]
+  unfold treeAdd
+  cases hr : rooted route <;> cases item <;> simp
+
+/-- **`Tree.Search`, prelude.** -/
+theorem tie_body_treeSearch (root : Node) (route : String) :
+    treeSearchBody route = (if !rooted route then 0 else 1) ∧
+    treeSearchBodyReturns = ["NotFound, false", "<continues>"] ∧
+    (treeSearchBody route = 0 → treeSearch root route = none) ∧
+    (treeSearchBody route = 1 → treeSearch root route = next (toksOf route) root) := by
+  have h := (tie_cond_notFromRoot route).2.1
+  unfold condSearchNotFromRoot at h
+  have e : treeSearchBody route = (if !rooted route then 0 else 1) := by unfold treeSearchBody; rw [h]
+  refine ⟨e, rfl, ?_, ?_⟩ <;> rw [e] <;> unfold treeSearch <;> cases rooted route <;> simp
+
+/-- **`getChildren`, whole body**: `children[1]` exactly for a `:name` token, `children[0]` otherwise (model `updChild`). -/
+theorem tie_body_getChildren (k : String) :
+    getChildrenBody k = (if isVar k then 0 else 1) ∧ getChildrenBodyReturns = ["nd.children[1]", "nd.children[0]"] := by
+  refine ⟨?_, rfl⟩
+  have h := (tie_cond_isVar k).1
+  unfold condGetChildrenVar at h
+  unfold getChildrenBody
+  rw [h]
+
+/-- **`match`, whole body**: a `:name` pattern binds `pat[1:]` (model `varName`) to the token and is found; a literal is
+found iff `pat == token` (model `matchTok`, `hit`). -/
+theorem tie_body_match (k : String) :
+    matchBody k = (if isVar k then 0 else 1) ∧
+    matchBodyReturns = ["innerResult{ key: pat[1:], value: token, named: true, found: true, }",
+                        "innerResult{ found: pat == token, }"] := by
+  refine ⟨?_, rfl⟩
+  have h := (tie_cond_isVar k).2
+  unfold condMatchNamed at h
+  unfold matchBody
+  rw [h]
+
+/-- **`Handle`, prelude**: `ErrInvalidMethod` first, then `ErrInvalidPath`, then the tree — as the model's `handle`. -/
+theorem tie_body_handle (r : Router) (m p : String) (item : Option H) :
+    handleBody (validMethod m) p = (if !validMethod m then 0 else if !rooted p then 1 else 2) ∧
+    handleBodyReturns = ["ErrInvalidMethod", "ErrInvalidPath", "<continues>"] ∧
+    (handleBody (validMethod m) p = 0 → handle r m p item = .error .invalidMethod) ∧
+    (handleBody (validMethod m) p = 1 → handle r m p item = .error .invalidPath) := by
+  have h := (tie_cond_notFromRoot p).2.2
+  unfold condHandleBadPath at h
+  have e : handleBody (validMethod m) p = (if !validMethod m then 0 else if !rooted p then 1 else 2) := by
+    unfold handleBody; rw [h]
+  refine ⟨e, rfl, ?_, ?_⟩ <;> rw [e] <;> unfold handle <;> cases validMethod m <;> cases rooted p <;> simp
+
+/-- **`pathvar.Vars`, whole body**: the stored map when the context holds one under the key, else nil (model `Ctx.vars`). -/
+theorem tie_body_pathvarVars (ok : Bool) :
+    pathvarVarsBody ok = (if ok then 0 else 1) ∧ pathvarVarsBodyReturns = ["vars", "nil"] := ⟨rfl, rfl⟩
+
+/-- **`handleError`**: returns for nil / ErrServerClosed, panics otherwise (`tie_handleErrorStmts`). -/
+theorem tie_body_handleError (err closed : Bool) :
+    handleErrorBody err closed = (if (!err || closed) then 0 else 1) ∧ handleErrorBodyReturns = ["", "<continues>"] ∧
+    (handleErrorBody err closed = 1 ↔ handleErrorPanics (!err) closed = true) := by
+  refine ⟨rfl, rfl, ?_⟩
+  unfold handleErrorBody handleErrorPanics
+  cases err <;> cases closed <;> decide
+
+/-- **`engine.bindRoute` / `appendAuthHandler`, decisions** (model `bindChain`, `tokenOk`): the native chain is built
+only when no `WithChain` chain is set; an Authorize handler is appended iff the group's jwt is enabled; the previous
+secret takes part iff it is non-empty (`tokenOk`: `b != ""`); `Authorize` gets the GROUP's `fr.jwt.secret` /
+`fr.jwt.prevSecret`, and the chain goes on through `verifier(chn)`. -/
+theorem tie_cond_bindRoute (chain : Option Nat) (jwt : Option (String × String)) (prev : String) (auth : Option String) (a : String) :
+    condBindRouteNative chain.isSome = chain.isNone ∧
+    ((bindChain chain jwt [] 0).any (fun l => match l with | .auth _ _ => true | _ => false) = condAuthEnabled jwt.isSome) ∧
+    (condAuthNoPrev prev = true → tokenOk (some (a, prev)) auth = tokenOk (some (a, "")) auth) ∧
+    (condAuthNoPrev prev = (prev == "")) ∧
+    argsOf engineAppendAuthCalls "handler.Authorize" =
+      [["fr.jwt.secret", "handler.WithUnauthorizedCallback(ng.unauthorizedCallback)"],
+       ["fr.jwt.secret", "handler.WithPrevSecret(fr.jwt.prevSecret)", "handler.WithUnauthorizedCallback(ng.unauthorizedCallback)"]] ∧
+    engineAppendAuthCalls.getLast? = some ("verifier", ["chn"]) := by
+  have hlen : (prev.length == 0) = (prev == "") := by
+    rw [← String.length_toList]
+    have : prev = String.ofList prev.toList := by simp
+    cases h : prev.toList with
+    | nil => rw [this, h]; rfl
+    | cons c cs =>
+      have hne : prev ≠ "" := by intro e; rw [e] at h; cases h
+      simp [hne]
+  refine ⟨by cases chain <;> rfl, ?_, ?_, hlen, rfl, rfl⟩
+  · unfold bindChain condAuthEnabled
+    cases jwt with
+    | none => simp
+    | some ab => simp
+  · intro h
+    unfold condAuthNoPrev at h
+    rw [hlen] at h
+    have : prev = "" := by simpa using h
+    rw [this]
+
+/-- **what the constructed values are fed from** (typed field lists): `WithPrefix` builds
+`Route{Method: rt.Method, Path: path.Join(group, rt.Path), Handler: rt.Handler}` — the model's
+`prefixReg g r = (r.1, joinGo g r.2.1, r.2.2)` (method and handler of the SAME route, group first in `Join`);
+`AddRoutes` starts from `featuredRoutes{routes: rs}` (the caller's slice, not a copy: model `RoutesRef.caller`), runs every
+option on `&r` and hands `r` to `engine.addRoutes`; `NewServer` pairs a new engine with a FRESH `router.NewRouter()`,
+`NewRouter` a fresh `trees` map, `NewTree` a root `newNode(nil)`, `newNode` two fresh children maps (model `newNode`,
+`({} : PatRouter)`: no state shared between instances — mutations M16, M23). -/
+theorem tie_fields :
+    withPrefixRouteFields = [("Method", "rt.Method"), ("Path", "p"), ("Handler", "rt.Handler")] ∧
+    argsOf withPrefixCalls "path.Join" = [["group", "rt.Path"]] ∧
+    addRoutesFeaturedFields = [("routes", "rs")] ∧
+    serverAddRoutesCalls = [("opt", ["&r"]), ("s.ngin.addRoutes", ["r"])] ∧
+    newServerFields = [("ngin", "newEngine(c)"), ("router", "router.NewRouter()")] ∧
+    newRouterFields = [("trees", "make(map[string]*search.Tree)")] ∧
+    newTreeFields = [("root", "newNode(nil)")] ∧
+    newNodeFields = [("item", "item"),
+      ("children", "[2]map[string]*node{ make(map[string]*node), make(map[string]*node), }")] :=
+  ⟨rfl, rfl, rfl, rfl, rfl, rfl, rfl, rfl⟩
+
+/-- … and the model's `prefixReg` has exactly this shape. -/
+theorem tie_prefixReg (g : String) (r : Reg) :
+    (prefixReg g r).1 = r.1 ∧ (prefixReg g r).2.1 = joinGo g r.2.1 ∧ (prefixReg g r).2.2 = r.2.2 := ⟨rfl, rfl, rfl⟩
+
+/-- **`validateSecret`** (model `RouteOpt.panics`): `WithJwt` / `WithJwtTransition` validate the CURRENT secret only, the
+option panics iff it is shorter than 8 bytes. -/
+theorem tie_validateSecret (s prev : String) :
+    condSecretTooShort s.utf8ByteSize = (RouteOpt.jwt s).panics ∧
+    condSecretTooShort s.utf8ByteSize = (RouteOpt.jwtTransition s prev).panics ∧
+    validateSecretStmts = ["if len(secret) < 8 {", "panic(\"secret's length can't be less than 8\")", "}"] ∧
+    withJwtCalls = [("validateSecret", ["secret"])] ∧ withJwtTransitionCalls = [("validateSecret", ["secret"])] :=
+  ⟨rfl, rfl, rfl, rfl, rfl⟩
+
+/-- **`WithCors`** (model `RunOpt.cors`, `Server.serveHTTP`): the not-allowed handler is set on the router FIRST, then the
+router is wrapped; the wrapper runs `cors.Middleware` around the embedded router's `ServeHTTP`; the middleware answers
+itself exactly when the method is `OPTIONS` (the model's preflight test). -/
+theorem tie_withCors (s : Server) (m p : String) :
+    withCorsStmts = [
+      "return func(server *Server){...}",
+      "func{",
+      "server.router.SetNotAllowedHandler(cors.NotAllowedHandler(nil, origin...))",
+      "server.router = newCorsRouter(server.router, nil, origin...)",
+      "}"] ∧
+    newCorsRouterStmts = ["return &corsRouter{ Router: router, middleware: cors.Middleware(headerFn, origins...), }"] ∧
+    corsRouterServeStmts = ["c.middleware(c.Router.ServeHTTP)(w, r)"] ∧
+    s.serveHTTP m p = (if s.cors && condCorsPreflight m then .preflight else .router (s.router.serveHTTP m p)) ∧
+    condCorsNAOptions m = condCorsPreflight m := ⟨rfl, rfl, rfl, rfl, rfl⟩
+
 end GoZero.C09.Tie
